@@ -289,6 +289,23 @@ def run(ck, facts):
         b = A.verdict(I.call(LO, [parse_shape(shape), A.UNK, A.UNK, F_, F_]))
         ck.expect(a == b or "conditional" in str(a) or "conditional" in b, "R3", "in-vs-out/" + shape, "%s / %s" % (a, b), "input gate says %s, output gate says %s for the same shape `%s` (not a documented asymmetry)" % (a, b, shape), None)
 
+    # the write handle is `&mut DiplomatWrite` only: Param::is_write answers true for no other spelling (a shared `&DiplomatWrite` is an ordinary -- and rejected --
+    # reference to a non-custom type; peeled off as the write handle it would make every backend generate a string-returning method around a read-only buffer)
+    iw = core.fn("ast::methods::Param::is_write")
+    iwm = next((n for n in C.walk(C.fn_body(iw)) if n.get("k") == "match"), None)
+    if iwm is None:
+        ck.bad("R4", "Param::is_write/anchor", "match on the parameter type not found", C.loc(iw))
+    else:
+        yes_arms = [a_ for a_ in iwm["arms"] if not (C.strip(a_["b"]).get("k") == "lit" and C.strip(a_["b"]).get("v") is False)]
+        ok_iw = len(yes_arms) == 1
+        if ok_iw:
+            pv = yes_arms[0]["pat"]
+            subs = pv.get("sub") or []
+            ok_iw = pv.get("v") == "Reference" and len(subs) == 3 and isinstance(subs[1], dict) and subs[1].get("k") == "variant" and subs[1].get("v") == "Mutable" and \
+                any((x.get("ctor") or x.get("p") or "").endswith("TypeName::Write") for x in C.walk(yes_arms[0]["b"]))
+        ck.expect(ok_iw, "R4", "Param::is_write/only-&mut-DiplomatWrite", "Reference(_, Mutable, Write)", "Param::is_write no longer requires `&mut`: a last parameter `&DiplomatWrite` is taken for the write handle "
+                  "instead of being refused like any reference to a non-custom type", C.loc(iw))
+
     # ---------------- R4 validation on the accept path
     fsyn = core.fn("hir::type_context::TypeContext::from_syn")
     items = C.fn_body(fsyn).get("s", []) + ([C.fn_body(fsyn)["e"]] if C.fn_body(fsyn).get("e") else [])
